@@ -1,6 +1,7 @@
 //! One oracle per property.
 use crate::engine::Property;
 
+pub mod c01;
 pub mod c02;
 pub mod c03;
 pub mod c04;
@@ -8,11 +9,13 @@ pub mod c05;
 pub mod c07;
 pub mod c08;
 pub mod c11;
+pub mod c14;
+pub mod c16;
 pub mod c17;
 pub mod common;
 
 pub fn all() -> Vec<&'static dyn Property> {
-    vec![&c02::C02, &c03::C03, &c04::C04, &c05::C05, &c04::C06, &c07::C07, &c08::C08, &c11::C11, &c17::C17]
+    vec![&c01::C01, &c02::C02, &c03::C03, &c04::C04, &c05::C05, &c04::C06, &c07::C07, &c08::C08, &c11::C11, &c14::C14, &c16::C16, &c17::C17]
 }
 
 pub fn by_id(id: &str) -> Option<&'static dyn Property> {
